@@ -129,7 +129,7 @@ class Ctx(object):
             return
         # vacuity guards
         labels = {}
-        for rec in records:
+        for rec in self.obligations:      # all phases so far (an earlier phase may have returned before this guard)
             labels.setdefault(rec.name.split('#')[0], 0)
             labels[rec.name.split('#')[0]] += 1
         for r in self.results:
